@@ -5,6 +5,7 @@ import (
 	"context"
 	"fmt"
 	"github.com/gogo/protobuf/proto"
+	pb "github.com/ipfs/boxo/ipld/unixfs/pb"
 	format "github.com/ipfs/go-ipld-format"
 	"github.com/multiformats/go-multihash"
 	"io"
@@ -169,7 +170,74 @@ func stripBlockSizes(st *Store, c cid.Cid) (cid.Cid, error) {
 	return nd.Cid(), nil
 }
 
+// rewriteOwn post-processes a DAG written by this library's builder into another *valid* UnixFS file DAG:
+//
+//	"mixed": the first child of every link node, when it is a raw leaf, becomes a protobuf-wrapped leaf
+//	         (so raw leaves follow a dag-pb sibling, as in DAGs with mixed leaf kinds);
+//	"mtime": the root carries a UnixFS 1.5 mtime before 1970 (negative seconds).
+//
+// Link sizes are recomputed the way the reference implementation does (merkledag AddNodeLink).
+func rewriteOwn(st *Store, c cid.Cid, mode string, isRoot bool) (format.Node, error) {
+	ds := dagServ{st}
+	if c.Prefix().Codec != cid.DagProtobuf {
+		return ds.Get(context.Background(), c)
+	}
+	b, _ := st.Get(c)
+	pn, d, err := decodePB(c, b)
+	if err != nil || d == nil {
+		return nil, fmt.Errorf("rewrite: undecodable block")
+	}
+	if mode == "mtime" && isRoot {
+		sec := int64(-86400)
+		d.Mtime = &pb.IPFSTimestamp{Seconds: &sec}
+	}
+	db, err := proto.Marshal(d)
+	if err != nil {
+		return nil, err
+	}
+	nd := merkledag.NodeWithData(db)
+	nd.SetCidBuilder(cid.V1Builder{Codec: cid.DagProtobuf, MhType: multihash.SHA2_256})
+	for i, l := range pn.Links() {
+		var child format.Node
+		if mode == "mixed" && i == 0 && l.Cid.Prefix().Codec == cid.Raw {
+			raw, _ := st.Get(l.Cid)
+			t := pb.Data_File
+			fs := uint64(len(raw))
+			ld, err := proto.Marshal(&pb.Data{Type: &t, Data: raw, Filesize: &fs})
+			if err != nil {
+				return nil, err
+			}
+			leaf := merkledag.NodeWithData(ld)
+			leaf.SetCidBuilder(cid.V1Builder{Codec: cid.DagProtobuf, MhType: multihash.SHA2_256})
+			st.Put(leaf.Cid(), leaf.RawData())
+			child = leaf
+		} else {
+			child, err = rewriteOwn(st, l.Cid, mode, false)
+			if err != nil {
+				return nil, err
+			}
+		}
+		if err := nd.AddNodeLink(l.Name, child); err != nil {
+			return nil, err
+		}
+	}
+	st.Put(nd.Cid(), nd.RawData())
+	return nd, nil
+}
+
 func buildFileCase(st *Store, fc *FileCase, content []byte) (cid.Cid, uint64, error) {
+	if fc.Writer == "own-mixed" || fc.Writer == "own-mtime" {
+		c, sz, err := buildOwnFile(st, bytes.NewReader(content), fc.Chunker, fc.W)
+		if err != nil {
+			return c, sz, err
+		}
+		nd, err := rewriteOwn(st, c, fc.Writer[4:], true)
+		if err != nil {
+			return c, sz, err
+		}
+		nsz, _ := nd.Size()
+		return nd.Cid(), nsz, nil
+	}
 	if fc.Writer == "" || fc.Writer == "own" {
 		return buildOwnFile(st, bytes.NewReader(content), fc.Chunker, fc.W)
 	}
